@@ -433,46 +433,6 @@ impl Query {
     fn has_left(&self) -> bool {
         self.joins.iter().any(|j| j.0)
     }
-    fn refs(&self) -> Vec<(usize, usize)> {
-        fn ex(e: &Expr, out: &mut Vec<(usize, usize)>) {
-            match e {
-                Expr::Col(p, c) => out.push((*p, *c)),
-                Expr::Const(_) => {}
-                Expr::Cat(a, b) | Expr::Add(a, b) => {
-                    ex(a, out);
-                    ex(b, out);
-                }
-            }
-        }
-        fn pr(p: &Pred, out: &mut Vec<(usize, usize)>) {
-            match p {
-                Pred::True => {}
-                Pred::Cmp(_, a, b) => {
-                    ex(a, out);
-                    ex(b, out);
-                }
-                Pred::IsNull(a) | Pred::NotNull(a) => ex(a, out),
-                Pred::And(a, b) | Pred::Or(a, b) => {
-                    pr(a, out);
-                    pr(b, out);
-                }
-            }
-        }
-        let mut out = vec![];
-        for e in &self.proj {
-            ex(e, &mut out);
-        }
-        pr(&self.wher, &mut out);
-        for j in &self.joins {
-            pr(&j.1, &mut out);
-        }
-        out
-    }
-    /// some table with non-key columns of which the query references none (DESIGN §6 F8)
-    fn key_only_table(&self) -> bool {
-        let r = self.refs();
-        self.tables.iter().enumerate().any(|(p, t)| t.cols.len() > t.nk && !r.iter().any(|(rp, rc)| *rp == p && *rc >= t.nk))
-    }
     /// names of the tables on the nullable side of a LEFT join
     fn nullable_tables(&self) -> Vec<&'static str> {
         self.joins.iter().enumerate().filter(|(_, j)| j.0).map(|(i, _)| self.tables[i + 1].name).collect()
@@ -643,9 +603,7 @@ fn show_changes(chs: &[Change]) -> String {
 
 impl World {
     fn prefix(&self, s: &Sub) -> &'static str {
-        if s.query.key_only_table() {
-            "key-only-query: "
-        } else if s.query.has_left() && s.left_unsafe {
+        if s.query.has_left() && s.left_unsafe {
             "left-join-nullable-side: "
         } else {
             "ivm: "
